@@ -215,6 +215,22 @@ def _slots():
          lambda v: m.ErrorMessage('a.b', 5, destination=v)),
         ('ErrorMessage', 'error_name', 'validateErrorName',
          lambda v: m.ErrorMessage(v, 5)),
+        # the same slots with the other optional keywords given too
+        ('ErrorMessage(sender=)', 'destination', 'validateBusName',
+         lambda v: m.ErrorMessage('a.b', 5, destination=v, sender=':1.7')),
+        ('ErrorMessage(sender=,body)', 'error_name', 'validateErrorName',
+         lambda v: m.ErrorMessage(v, 5, sender='c.d', signature='s',
+                                  body=['x'])),
+        ('MethodReturnMessage(body)', 'destination', 'validateBusName',
+         lambda v: m.MethodReturnMessage(5, body=['x'], destination=v,
+                                         signature='s')),
+        ('MethodCallMessage(flags)', 'member', 'validateMemberName',
+         lambda v: m.MethodCallMessage('/p', v, expectReply=False,
+                                       autoStart=False, signature='u',
+                                       body=[1])),
+        ('SignalMessage(body)', 'interface', 'validateInterfaceName',
+         lambda v: m.SignalMessage('/p', 'M', v, signature='s',
+                                   body=['x'])),
     ]
 
 
